@@ -1081,6 +1081,8 @@ func runC09(f *hx.Flags) {
 		switch {
 		case len(ws) >= 5 && ws[1] == "call":
 			return "C09:call:" + ws[4]
+		case len(ws) >= 2 && ws[1] == "build":
+			return "C09:build:" + d.Impl
 		case len(ws) >= 2:
 			return "C09:" + ws[1]
 		}
